@@ -466,14 +466,22 @@ def _r123c(ctx: Ctx) -> None:
         run = ci.methods.get('_run')
         ctx.need(run is not None, 'R12.3', site, f'{cname}._run not found')
         targets = []
+        # local aliases of the results dictionary (results = self._results)
+        res_alias = {s_.targets[0].id for s_ in ast.walk(run) if isinstance(s_, ast.Assign) and len(s_.targets) == 1
+                     and isinstance(s_.targets[0], ast.Name) and isinstance(s_.value, ast.Attribute)
+                     and s_.value.attr in ('_results', 'results')}
+
+        def is_results(e):
+            return (isinstance(e, ast.Attribute) and e.attr in ('_results', 'results')) or \
+                (isinstance(e, ast.Name) and e.id in res_alias)
         for n in ast.walk(run):
             if isinstance(n, ast.Call) and isinstance(n.func, ast.Attribute) and n.func.attr == 'append':
                 t = n.func.value
                 depth = 0
-                while isinstance(t, ast.Subscript) and not (isinstance(t.value, ast.Attribute) and t.value.attr == '_results'):
+                while isinstance(t, ast.Subscript) and not is_results(t.value):
                     t = t.value
                     depth += 1
-                if isinstance(t, ast.Subscript) and isinstance(t.value, ast.Attribute) and t.value.attr == '_results':
+                if isinstance(t, ast.Subscript) and is_results(t.value):
                     key = ast.literal_eval(t.slice) if isinstance(t.slice, ast.Constant) else None
                     targets.append((key, depth, n))
         ctx.need(targets, 'R12.3', site_of(ci.module, run), f'{cname}._run: no append into self._results found')
